@@ -77,8 +77,8 @@ def _late():
 def configs(ctx):
     if ctx.quick:
         return [('M1', _m1(), 3, 1, Spec, 2.0), ('M4', _m4(), 5, 0, Spec, 1.0),
-                ('M2', _m2(), 3, 0, Spec, 1.0),
-                ('M1-lateq', _late(), 3, 1, Spec, 1.0)]
+                ('M2', _m2(), 4, 0, Spec, 1.0),
+                ('M1-lateq', _late(), 4, 1, Spec, 1.0)]
     late = _m1()
     late['allow_late'] = True
     return [('M1', _m1(), 5, 1, Spec, 2.0), ('M4', _m4(), 8, 1, Spec, 1.0),
